@@ -5,7 +5,7 @@
    [score], about which C09_score_formula / C09_winner_is_max_eligible are proved, computes the same
    from the builder's configuration. *)
 From Coq Require Import ZArith NArith.
-From Verif Require Import Lib.Base Lib.GoInt Gen.Pure_Extracted Model.C09_Auction Proofs.GenTie2.
+From Verif Require Import Lib.Base Lib.GoInt Gen.Pure_C09 Model.C09_Auction Proofs.TieLib Proofs.Tie_C09.
 Local Open Scope Z_scope.
 
 Theorem C09_tie_score : forall (cfgs : bconfs) (b : bid),
